@@ -264,7 +264,9 @@ def rate_correspondence(ctx, vlen):
         N = rng.randint(bs, 60 * bs)
         ecases.append((N, bs))
     ecases += [(98, 2), (49, 1), (98, 1), (186, 2)]
-    facts = [R.engine_facts(N, bs) for N, bs in ecases]
+    # a fifth of the cases reuse an engine that was first made private on ANOTHER dataset
+    priors = [((rng.randint(5, 400), rng.randint(1, 7)) if k % 5 == 4 else None) for k in range(len(ecases))]
+    facts = [R.engine_facts(N, bs, prior=pr) for (N, bs), pr in zip(ecases, priors)]
     lines = []
     for f in facts:
         lines.append(f"rate {vlen} {f['L']}")
@@ -282,7 +284,7 @@ def rate_correspondence(ctx, vlen):
         if impl == (int(lm), qs, qa, em) and isinstance(f["ebs"], int):
             ctx.validated()
         else:
-            ctx.mismatch("engine_rate", {"N": N, "bs": bs}, impl, [reps[2 * k], reps[2 * k + 1]], oracle=R.rate_oracle)
+            ctx.mismatch("engine_rate", {"N": N, "bs": bs, "prior": priors[k]}, impl, [reps[2 * k], reps[2 * k + 1]], oracle=R.rate_oracle)
 
 
 # --------------------------------------------------------------------------- variants
